@@ -12,6 +12,7 @@ import (
 	"time"
 
 	tcpip "github.com/brewlin/net-protocol/protocol"
+	"github.com/brewlin/net-protocol/protocol/transport/tcp"
 	"verifh/fw"
 	"verifh/rawpeer"
 	"verifh/rfc"
@@ -35,6 +36,11 @@ type Script struct {
 	TS     bool   `json:"ts"`
 	SACK   bool   `json:"sack"`
 	Steps  []Step `json:"steps"`
+	// passive scripts only: the listener answers with a SYN cookie, and/or the ACK that
+	// completes the handshake already carries the first AckData bytes of the peer's stream
+	// (which the script's first data step sends again)
+	Cookie  bool `json:"cookie,omitempty"`
+	AckData int  `json:"ack_data,omitempty"`
 }
 
 // Gen builds script k of the family named by label.
@@ -92,6 +98,10 @@ func Gen(seed int64, label string, k int) Script {
 		}
 	}
 	sc.Steps = append(sc.Steps, Step{Kind: "read"}, Step{Kind: "wait", Ms: 1500})
+	if !sc.Active && r.Chance(1, 4) { // drawn last: the steps above are the same with and without
+		sc.Cookie = r.Bool()
+		sc.AckData = 1 + r.Intn(200)
+	}
 	return sc
 }
 
@@ -104,7 +114,16 @@ func Play(sc Script, ownISS, peerISS uint32) ([]string, string) {
 	}
 	p := rawpeer.New(h, false)
 	own := ownISS
-	conn, emsg := p.Establish(rawpeer.EstOpts{Active: sc.Active, LPort: 80, PPort: 33333, PeerISS: peerISS, OwnISS: &own, MSS: 1000, WS: 3, TS: sc.TS, SACK: sc.SACK, Window: 60000})
+	tcp.SynRcvdCountThreshold = 1000
+	if sc.Cookie {
+		tcp.SynRcvdCountThreshold = 0
+	}
+	var ackData []byte
+	for i := 0; i < sc.AckData; i++ {
+		ackData = append(ackData, tcpx.PByte(uint64(sc.K), 1, int64(i)))
+	}
+	conn, emsg := p.Establish(rawpeer.EstOpts{Active: sc.Active, LPort: 80, PPort: 33333, PeerISS: peerISS, OwnISS: &own, MSS: 1000, WS: 3, TS: sc.TS, SACK: sc.SACK, Window: 60000, AckData: ackData})
+	tcp.SynRcvdCountThreshold = 1000
 	if conn == nil {
 		return nil, emsg
 	}
